@@ -32,16 +32,16 @@ import vlib
 
 SHAPES = {
     # must mirror Tendermint_sim4.cfg / Tendermint_sim7.cfg / Tendermint_trace4.cfg / Tendermint_trace7.cfg
-    "n4": {"nv": 4, "power": [1, 1, 1, 1], "maxVal": 3, "nValid": 2, "maxRound": 2,
-           "corr": [1, 2, 3], "byz": [4], "h0": 1, "propShift": 0},
-    "n7": {"nv": 7, "power": [3, 2, 2, 1, 1, 1, 1], "maxVal": 3, "nValid": 2, "maxRound": 2,
-           "corr": [2, 3, 4, 5, 6, 7], "byz": [1], "h0": 1, "propShift": 0},
+    "n4": {"nv": 4, "powers": [[1, 1, 1, 1], [2, 2, 2, 2], [2, 1, 1, 1]], "maxVal": 3, "nValid": 2,
+           "maxRound": 2, "corr": [1, 2, 3], "byz": [4], "h0": 1, "propShift": 1},
+    "n7": {"nv": 7, "powers": [[3, 2, 2, 1, 1, 1, 1], [6, 4, 4, 2, 2, 2, 2], [1, 1, 1, 1, 1, 1, 1]], "maxVal": 3,
+           "nValid": 2, "maxRound": 2, "corr": [2, 3, 4, 5, 6, 7], "byz": [1], "h0": 1, "propShift": 5},
 }
-SHAPES1 = {"n1": {"nv": 4, "power": [1, 1, 1, 1], "maxVal": 3, "nValid": 2, "maxRound": 3,
+SHAPES1 = {"n1": {"nv": 4, "powers": [[1, 1, 1, 1], [2, 2, 2, 2], [2, 1, 1, 1]], "maxVal": 3, "nValid": 2, "maxRound": 3,
                   "corr": [2], "byz": [1, 3, 4], "h0": 1, "propShift": 0}}      # Tendermint_sim1.cfg
-SIM = {"n4": ("Tendermint_sim4.cfg", 61), "n7": ("Tendermint_sim7.cfg", 91), "n1": ("Tendermint_sim1.cfg", 81)}
+SIM = {"n4": ("Tendermint_sim4.cfg", 111), "n7": ("Tendermint_sim7.cfg", 151), "n1": ("Tendermint_sim1.cfg", 81)}
 ENGINE = "tendermint"
-SIM_PAR = max(1, min(6, int(os.environ.get("VERIF_TLC_WORKERS", "16")) // 2))   # parallel TLC -simulate runs
+SIM_PAR = 6   # parallel single-threaded TLC -simulate runs (overlapped with the exhaustive checks)
 
 
 def _trace_fail_event(res, trace_path):
@@ -117,6 +117,21 @@ def run(ctx):
     thorough = not ctx.quick()
     only = os.environ.get("VERIF_C12_ONLY", "")     # development aid, never set by registered commands
 
+    # the single-threaded TLC simulations run in the background while the exhaustive checks use the workers
+    sim_futures, pool = [], None
+    if not only or "replay" in only:
+        nruns = {"n4": 8 if thorough else 2, "n7": 6 if thorough else 1, "n1": 10 if thorough else 3}
+        per_run = {"n4": 120, "n7": 80, "n1": 160} if thorough else {"n4": 50, "n7": 30, "n1": 50}
+        jobs = [(name, i) for name in ("n4", "n7", "n1") for i in range(nruns[name])]
+
+        def sim(job):
+            name, i = job
+            cfg, period = SIM[name]
+            return name, ctx.tlc_simulate("consensus", "TendermintMBT.tla", cfg, depth=period * per_run[name],
+                                          seed=ctx.seed * 1000 + i, timeout=2400)
+        pool = concurrent.futures.ThreadPoolExecutor(max_workers=SIM_PAR)
+        sim_futures = [pool.submit(sim, j) for j in jobs]
+
     # ------------------------------------------------------------------ TLC on the specifications
     if not only or "abs" in only:
         for cfg in (["TendermintAbs_c1c2.cfg", "TendermintAbs_f1c1.cfg"] +
@@ -135,19 +150,11 @@ def run(ctx):
 
     # ------------------------------------------------------------------ replay (spec -> code)
     if not only or "replay" in only:
-        nruns = {"n4": 8 if thorough else 2, "n7": 6 if thorough else 1, "n1": 10 if thorough else 3}
-        per_run = 160 if thorough else 50
-        jobs = [(name, i) for name in ("n4", "n7", "n1") for i in range(nruns[name])]
-
-        def sim(job):
-            name, i = job
-            cfg, period = SIM[name]
-            return name, ctx.tlc_simulate("consensus", "TendermintMBT.tla", cfg, depth=period * per_run,
-                                          seed=ctx.seed * 1000 + i, timeout=2400)
         by_name = {"n4": [], "n7": [], "n1": []}
-        with concurrent.futures.ThreadPoolExecutor(max_workers=SIM_PAR) as pool:
-            for name, bs in pool.map(sim, jobs):
-                by_name[name] += bs
+        for fut in sim_futures:
+            name, bs = fut.result()
+            by_name[name] += bs
+        pool.shutdown()
         total = 0
         for name in ("n4", "n7", "n1"):
             behaviours = by_name[name]
@@ -163,7 +170,7 @@ def run(ctx):
     # ------------------------------------------------------------------ adversarial runs (code -> spec)
     if not only or "adv" in only:
         payload = {"runs": 3000 if thorough else 600, "steps": 400, "traceRuns": 40 if thorough else 8,
-                   "shapes": SHAPES, "maxHeight": 2, "msgMaxHeight": 3}
+                   "shapes": SHAPES, "maxHeight": 3, "msgMaxHeight": 4}
         res = ctx.run_engine(binary, "TestTmAdversarial", payload, timeout=1500)
         ctx.absorb(res, ENGINE, "TestTmAdversarial")
         ctx.coverage["adversarial_runs"] = payload["runs"]
